@@ -95,7 +95,7 @@ def embedOutcome (fb : Bool) : NegOutcome → Outcome
   | .mismatch n name b => .raised (.mismatch (.int n) (nameJV name) b)
   | .invalidStatus => .raised .invalidStatus
 
-def StatusReply.isFallbackShape : StatusReply → Bool
+def isFallbackShape : StatusReply → Bool
   | .proto _ _ => false
   | _ => true
 
@@ -174,7 +174,9 @@ theorem runLoopS_shape (script : List StatusPkt) (st : TSt) (hc : st.connected =
         (runLoopS parse clock doPing cs cp st script).1.connected = false ∧
         (runLoopS parse clock doPing cs cp st script).1.interrupt = true ∧
         ∃ pre a, (runLoopS parse clock doPing cs cp st script).2.1 = pre ++ [.disconnect, a] ∧
-          SAct.disconnect ∉ pre ∧ a ≠ .disconnect ∧ a.isLoopAct = true)) := by
+          SAct.disconnect ∉ pre ∧
+          (((∃ d, a = .callStatus cs d) ∧ doPing = false) ∨
+            ((∃ l, a = .callPing cp l) ∧ doPing = true)))) := by
   induction script generalizing st with
   | nil => exact ⟨by simp [runLoopS], .inl ⟨hc, hi, by simp [runLoopS]⟩⟩
   | cons pkt rest ih =>
@@ -187,7 +189,8 @@ theorem runLoopS_shape (script : List StatusPkt) (st : TSt) (hc : st.connected =
       cases doPing with
       | false => exact ih st hc hi
       | true =>
-        refine ⟨by simp [SAct.isLoopAct], .inr ⟨rfl, rfl, rfl, [], _, rfl, by simp, by simp, rfl⟩⟩
+        refine ⟨by simp [SAct.isLoopAct], .inr ⟨rfl, rfl, rfl, [], _, rfl, by simp,
+          .inr ⟨⟨_, rfl⟩, rfl⟩⟩⟩
     | response j =>
       cases hp : parse j with
       | error e =>
@@ -197,12 +200,13 @@ theorem runLoopS_shape (script : List StatusPkt) (st : TSt) (hc : st.connected =
         rw [runLoopS_response_ok _ _ _ _ _ _ _ _ _ hi hp]
         cases doPing with
         | false =>
-          refine ⟨by simp [SAct.isLoopAct], .inr ⟨rfl, rfl, rfl, [], _, rfl, by simp, by simp, rfl⟩⟩
+          refine ⟨by simp [SAct.isLoopAct], .inr ⟨rfl, rfl, rfl, [], _, rfl, by simp,
+            .inl ⟨⟨_, rfl⟩, rfl⟩⟩⟩
         | true =>
           have ht : st.tick.connected = true := hc
           have hti : st.tick.interrupt = false := hi
           obtain ⟨h1, h2⟩ := ih st.tick ht hti
-          simp only [if_true]
+          rw [if_pos rfl]
           refine ⟨?_, ?_⟩
           · intro a ha
             simp only [List.cons_append, List.nil_append, List.mem_cons] at ha
@@ -210,12 +214,12 @@ theorem runLoopS_shape (script : List StatusPkt) (st : TSt) (hc : st.connected =
             · rfl
             · rfl
             · exact h1 a ha
-          · rcases h2 with ⟨a1, a2, a3⟩ | ⟨b0, b1, b2, pre, a, e, hpre, hne, hla⟩
+          · rcases h2 with ⟨a1, a2, a3⟩ | ⟨b0, b1, b2, pre, a, e, hpre, hla⟩
             · refine .inl ⟨a1, a2, ?_⟩
               simp only [List.cons_append, List.nil_append, List.mem_cons, reduceCtorEq, false_or]
               exact a3
             · refine .inr ⟨b0, b1, b2, SAct.sendPing (clock st.reads) :: SAct.callStatus cs d :: pre,
-                a, ?_, ?_, hne, hla⟩
+                a, ?_, ?_, hla⟩
               · rw [e]; simp
               · simp only [List.mem_cons, reduceCtorEq, false_or]
                 exact hpre
@@ -382,6 +386,98 @@ theorem runLoopS_reads (script : List StatusPkt) (st : TSt) :
 
 end Loop
 
+/-! ## The networking thread around the loop -/
+
+/-- The three ways a status thread can stand at the end of a server script. -/
+def ThreadShape {J : Type} (doPing : Bool) (cs cp : Callee) (exitCb : Bool) (frames : List Frame)
+    (run : StatusRunS J) : Prop :=
+  -- still waiting for packets: nothing closed
+  (∃ acts, run = ⟨frames, acts, true, false, none⟩ ∧ (∀ a ∈ acts, a.isLoopAct = true) ∧
+      SAct.disconnect ∉ acts) ∨
+  -- an exception ended the loop: handlers, then an immediate disconnect; no exit callback
+  (∃ pre e, run = ⟨frames, pre ++ [.excHandlers e, .disconnectImmediate], false, true, some e⟩ ∧
+      (∀ a ∈ pre, a.isLoopAct = true) ∧ SAct.disconnect ∉ pre) ∨
+  -- normal end: one `disconnect`, then the one handler call of that packet, then the exit callback
+  (∃ pre a, run = ⟨frames, pre ++ [.disconnect, a] ++ (if exitCb then [.exit] else []), false, true,
+        none⟩ ∧
+      (∀ a ∈ pre, a.isLoopAct = true) ∧ SAct.disconnect ∉ pre ∧
+      (((∃ d, a = .callStatus cs d) ∧ doPing = false) ∨ ((∃ l, a = .callPing cp l) ∧ doPing = true)))
+
+theorem threadRun_shape {J : Type} (parse : String → Except Err J) (clock : Nat → Nat)
+    (doPing : Bool) (cs cp : Callee) (exitCb : Bool) (frames : List Frame)
+    (script : List StatusPkt) :
+    ThreadShape doPing cs cp exitCb frames
+      (threadRun parse clock doPing cs cp exitCb frames script) := by
+  obtain ⟨h1, h2⟩ := runLoopS_shape parse clock doPing cs cp script TSt.init rfl rfl
+  unfold threadRun
+  generalize runLoopS parse clock doPing cs cp TSt.init script = res at h1 h2
+  obtain ⟨st, acts, err⟩ := res
+  simp only at h1 h2
+  rcases h2 with ⟨a1, a2, a3⟩ | ⟨b0, b1, b2, pre, a, e, hpre, hla⟩
+  · cases err with
+    | some e => exact .inr (.inl ⟨acts, e, rfl, h1, a3⟩)
+    | none =>
+      refine .inl ⟨acts, ?_, h1, a3⟩
+      simp only [a2, Bool.false_eq_true, if_false, a1]
+  · subst b0
+    subst e
+    refine .inr (.inr ⟨pre, a, ?_, fun x hx => h1 x (by simp [hx]), hpre, hla⟩)
+    simp only [b2, if_true, b1, Bool.not_false, Bool.true_and]
+
+/-- Everything the thread logs is a loop action or one of the three closing actions. -/
+theorem threadRun_acts_mem {J : Type} (parse : String → Except Err J) (clock : Nat → Nat)
+    (doPing : Bool) (cs cp : Callee) (exitCb : Bool) (frames : List Frame)
+    (script : List StatusPkt) (a : SAct J)
+    (h : a ∈ (threadRun parse clock doPing cs cp exitCb frames script).acts) :
+    a ∈ (runLoopS parse clock doPing cs cp TSt.init script).2.1 ∨ a = .exit ∨
+      a = .disconnectImmediate ∨ ∃ e, a = .excHandlers e := by
+  unfold threadRun at h
+  generalize runLoopS parse clock doPing cs cp TSt.init script = res at h ⊢
+  obtain ⟨st, acts, err⟩ := res
+  cases err with
+  | some e =>
+    simp only [List.mem_append, List.mem_cons, List.not_mem_nil, or_false] at h
+    rcases h with h | rfl | rfl
+    · exact .inl h
+    · exact .inr (.inr (.inr ⟨e, rfl⟩))
+    · exact .inr (.inr (.inl rfl))
+  | none =>
+    simp only at h
+    split at h
+    · simp only [List.mem_append] at h
+      rcases h with h | h
+      · exact .inl h
+      · split at h
+        · simp only [List.mem_cons, List.not_mem_nil, or_false] at h
+          exact .inr (.inl h)
+        · cases h
+    · exact .inl h
+
+/-- Every loop action is in the thread's log. -/
+theorem threadRun_acts_sub {J : Type} (parse : String → Except Err J) (clock : Nat → Nat)
+    (doPing : Bool) (cs cp : Callee) (exitCb : Bool) (frames : List Frame)
+    (script : List StatusPkt) (a : SAct J)
+    (h : a ∈ (runLoopS parse clock doPing cs cp TSt.init script).2.1) :
+    a ∈ (threadRun parse clock doPing cs cp exitCb frames script).acts := by
+  unfold threadRun
+  generalize runLoopS parse clock doPing cs cp TSt.init script = res at h ⊢
+  obtain ⟨st, acts, err⟩ := res
+  cases err with
+  | some e => simp only [List.mem_append]; exact .inl h
+  | none =>
+    simp only
+    split
+    · simp only [List.mem_append]; exact .inl h
+    · exact h
+
+/-- Without `do_ping` no ping is sent and no latency reported, whatever arrives. -/
+theorem runLoopS_false_acts {J : Type} (parse : String → Except Err J) (clock : Nat → Nat)
+    (cs cp : Callee) (script : List StatusPkt) (st : TSt) (hi : st.interrupt = false) :
+    ∀ a ∈ (runLoopS parse clock false cs cp st script).2.1,
+      (∀ t, a ≠ .sendPing t) ∧ (∀ w l, a ≠ .callPing w l) := by
+  rcases runLoopS_noping parse clock cs cp script st hi with ⟨h, _⟩ | ⟨_, _, _, _, _, _, _, h⟩ |
+    ⟨_, _, _, _, _, _, _, h⟩ <;> rw [h] <;> simp
+
 /-! ## `calleeOf`, `doPingOf` -/
 
 theorem calleeOf_spec (h : HArg) :
@@ -455,40 +551,77 @@ theorem inIntSet_false (x : JV) (s : List Nat) (h : inIntSet x s = .ok false) :
       cases h
   · cases h
 
+/-- Where a `VersionMismatch` with given attributes can come from, for `x = status['version']`. -/
+def MismatchOrigin (env : VEnv) (kn : List (String × Nat)) (allowed : List Nat) (x : JV)
+    (sp sv : JV) (b : Bool) : Prop :=
+  ∃ xk proto, x = .obj xk ∧ lookup xk "protocol" = some proto ∧
+    inIntSet proto allowed = .ok false ∧
+    versionMismatchX env kn proto ((lookup xk "name").getD .null) = .mismatch sp sv b
+
 /-- The three things `afterProto` can do. -/
 theorem afterProto_cases (env : VEnv) (kn : List (String × Nat)) (allowed : List Nat) (x proto : JV) :
-    (∃ r, afterProto env kn allowed x proto = .raised r ∧ isEOFError r = false) ∨
-    (∃ n, afterProto env kn allowed x proto = .connectFloat n) ∨
+    (∃ r, afterProto env kn allowed x proto = .raised r ∧ isEOFError r = false ∧
+      ∀ sp sv b, r = .mismatch sp sv b → ∃ name, pyDictGet "name" x = .ok name ∧
+        inIntSet proto allowed = .ok false ∧ versionMismatchX env kn proto name = .mismatch sp sv b) ∨
+    (∃ n, afterProto env kn allowed x proto = .connectFloat n ∧ proto = .flt (.integral n) ∧
+      ∃ v ∈ allowed, (v : Int) = n) ∨
     (∃ v, v ∈ allowed ∧ intKey proto = some (v : Int) ∧ (∀ m, proto ≠ .flt (.integral m)) ∧
       afterProto env kn allowed x proto = .connect v false) := by
   unfold afterProto
   cases hs : inIntSet proto allowed with
-  | error e => exact .inl ⟨_, rfl, rfl⟩
+  | error e => exact .inl ⟨_, rfl, rfl, fun _ _ _ h => by cases h⟩
   | ok b =>
     cases b with
     | false =>
       simp only
-      cases pyDictGet "name" x with
-      | error e => exact .inl ⟨_, rfl, rfl⟩
-      | ok name => exact .inl ⟨_, rfl, versionMismatchX_not_eof _ _ _ _⟩
+      cases hn : pyDictGet "name" x with
+      | error e => exact .inl ⟨_, rfl, rfl, fun _ _ _ h => by cases h⟩
+      | ok name =>
+        exact .inl ⟨_, rfl, versionMismatchX_not_eof _ _ _ _, fun sp sv b h => ⟨name, rfl, trivial, h⟩⟩
     | true =>
       simp only
       obtain ⟨v, hv, hk⟩ := inIntSet_true proto allowed hs
-      rcases handleProtoVersionX_cases proto with ⟨n, _, h⟩ | ⟨n, hn, hne, h⟩ | ⟨hn, _⟩
-      · exact .inr (.inl ⟨n, h⟩)
+      rcases handleProtoVersionX_cases proto with ⟨n, hp, h⟩ | ⟨n, hn, hne, h⟩ | ⟨hn, _⟩
+      · refine .inr (.inl ⟨n, h, hp, v, hv, ?_⟩)
+        subst hp
+        simp only [intKey, Option.some.injEq] at hk
+        exact hk.symm
       · rw [hk] at hn
         cases hn
         refine .inr (.inr ⟨v, hv, hk, hne, ?_⟩)
         rw [h]; simp
       · rw [hk] at hn; cases hn
 
+/-- A value that equals an allowed integer and is not a float is accepted as that integer. -/
+theorem afterProto_of_member (env : VEnv) (kn : List (String × Nat)) (allowed : List Nat)
+    (x proto : JV) (v : Nat) (hv : v ∈ allowed) (hk : intKey proto = some (v : Int))
+    (hne : ∀ m, proto ≠ .flt (.integral m)) :
+    afterProto env kn allowed x proto = .connect v false := by
+  have hh : hashable proto = true := by
+    cases proto <;> first | rfl | (simp [intKey] at hk)
+  have hs : inIntSet proto allowed = .ok true := by
+    unfold inIntSet
+    simp only [hh, if_true, hk]
+    rw [(inZ_iff _ _).2 ⟨v, hv, rfl⟩]
+  unfold afterProto
+  simp only [hs]
+  rcases handleProtoVersionX_cases proto with ⟨n, hp, _⟩ | ⟨n, hn, _, h⟩ | ⟨hn, _⟩
+  · exact absurd hp (hne n)
+  · rw [hk] at hn
+    cases hn
+    rw [h]; simp
+  · rw [hk] at hn; cases hn
+
 /-- Is the result the `handle_failure()` call? — for `afterVersion`. -/
 theorem afterVersion_cases (env : VEnv) (kn : List (String × Nat)) (allowed : List Nat) (dflt : Nat)
     (x : JV) :
     (lacksKey "protocol" x = true ∧ afterVersion env kn allowed dflt x = .connect dflt true) ∨
     (lacksKey "protocol" x = false ∧
-      ((∃ r, afterVersion env kn allowed dflt x = .raised r ∧ isEOFError r = false) ∨
-       (∃ n, afterVersion env kn allowed dflt x = .connectFloat n) ∨
+      ((∃ r, afterVersion env kn allowed dflt x = .raised r ∧ isEOFError r = false ∧
+          ∀ sp sv b, r = .mismatch sp sv b → MismatchOrigin env kn allowed x sp sv b) ∨
+       (∃ n, afterVersion env kn allowed dflt x = .connectFloat n ∧
+          ∃ xk, x = .obj xk ∧ lookup xk "protocol" = some (.flt (.integral n)) ∧
+            ∃ v ∈ allowed, (v : Int) = n) ∨
        (∃ xk proto v, x = .obj xk ∧ lookup xk "protocol" = some proto ∧ v ∈ allowed ∧
           intKey proto = some (v : Int) ∧ (∀ m, proto ≠ .flt (.integral m)) ∧
           afterVersion env kn allowed dflt x = .connect v false))) := by
@@ -500,9 +633,15 @@ theorem afterVersion_cases (env : VEnv) (kn : List (String × Nat)) (allowed : L
     | some proto =>
       refine .inr ⟨by simp [lacksKey, hl], ?_⟩
       simp only [pyIn, hl, Option.isSome_some, pyGetItem]
-      rcases afterProto_cases env kn allowed (.obj xk) proto with h | h | ⟨v, h1, h2, h3, h4⟩
-      · exact .inl h
-      · exact .inr (.inl h)
+      rcases afterProto_cases env kn allowed (.obj xk) proto with
+        ⟨r, h1, h2, h3⟩ | ⟨n, h1, h2, h3⟩ | ⟨v, h1, h2, h3, h4⟩
+      · refine .inl ⟨r, h1, h2, fun sp sv b hr => ?_⟩
+        obtain ⟨name, hn1, hn2, hn3⟩ := h3 sp sv b hr
+        simp only [pyDictGet, Except.ok.injEq] at hn1
+        subst hn1
+        exact ⟨xk, proto, rfl, hl, hn2, hn3⟩
+      · subst h2
+        exact .inr (.inl ⟨n, h1, xk, rfl, hl, h3⟩)
       · exact .inr (.inr ⟨xk, proto, v, rfl, hl, h1, h2, h3, h4⟩)
   | arr l =>
     cases ha : l.any (JV.isStr "protocol") with
@@ -510,17 +649,400 @@ theorem afterVersion_cases (env : VEnv) (kn : List (String × Nat)) (allowed : L
       exact .inl ⟨by simp only [lacksKey, ha, Bool.not_false], by simp only [pyIn, ha]⟩
     | true =>
       exact .inr ⟨by simp only [lacksKey, ha, Bool.not_true],
-        .inl ⟨.py .type, by simp only [pyIn, ha, pyGetItem], rfl⟩⟩
+        .inl ⟨.py .type, by simp only [pyIn, ha, pyGetItem], rfl, fun _ _ _ h => by cases h⟩⟩
   | str s =>
     cases ha : hasInfix "protocol".toList s.toList with
     | false =>
       exact .inl ⟨by simp only [lacksKey, ha, Bool.not_false], by simp only [pyIn, ha]⟩
     | true =>
       exact .inr ⟨by simp only [lacksKey, ha, Bool.not_true],
-        .inl ⟨.py .type, by simp only [pyIn, ha, pyGetItem], rfl⟩⟩
-  | null => exact .inr ⟨rfl, .inl ⟨_, rfl, rfl⟩⟩
-  | bool b => exact .inr ⟨rfl, .inl ⟨_, rfl, rfl⟩⟩
-  | int n => exact .inr ⟨rfl, .inl ⟨_, rfl, rfl⟩⟩
-  | flt f => exact .inr ⟨rfl, .inl ⟨_, rfl, rfl⟩⟩
+        .inl ⟨.py .type, by simp only [pyIn, ha, pyGetItem], rfl, fun _ _ _ h => by cases h⟩⟩
+  | null => exact .inr ⟨rfl, .inl ⟨_, rfl, rfl, fun _ _ _ h => by cases h⟩⟩
+  | bool b => exact .inr ⟨rfl, .inl ⟨_, rfl, rfl, fun _ _ _ h => by cases h⟩⟩
+  | int n => exact .inr ⟨rfl, .inl ⟨_, rfl, rfl, fun _ _ _ h => by cases h⟩⟩
+  | flt f => exact .inr ⟨rfl, .inl ⟨_, rfl, rfl, fun _ _ _ h => by cases h⟩⟩
+
+/-! ### `handle_status` by the shape of the status value -/
+
+section HS
+variable (env : VEnv) (kn : List (String × Nat)) (allowed : List Nat) (dflt : Nat)
+
+theorem handleStatusX_obj_nil :
+    handleStatusX env kn allowed dflt (.obj []) = .raised .invalidStatus := rfl
+
+theorem handleStatusX_obj_cons (e : String × JV) (es : List (String × JV)) :
+    handleStatusX env kn allowed dflt (.obj (e :: es)) =
+      match lookup (e :: es) "version" with
+      | none => .connect dflt true
+      | some x => afterVersion env kn allowed dflt x := by
+  cases hl : lookup (e :: es) "version" with
+  | none => simp only [handleStatusX, pyIn, hl, Option.isSome_none]
+  | some x => simp only [handleStatusX, pyIn, hl, Option.isSome_some, pyGetItem]
+
+theorem handleStatusX_arr (l : List JV) :
+    handleStatusX env kn allowed dflt (.arr l) =
+      if l.any (JV.isStr "version") then .raised (.py .type) else .connect dflt true := by
+  cases ha : l.any (JV.isStr "version") <;> simp only [handleStatusX, pyIn, ha, pyGetItem] <;> rfl
+
+theorem handleStatusX_str (s : String) :
+    handleStatusX env kn allowed dflt (.str s) =
+      if hasInfix "version".toList s.toList then .raised (.py .type) else .connect dflt true := by
+  cases ha : hasInfix "version".toList s.toList <;>
+    simp only [handleStatusX, pyIn, ha, pyGetItem] <;> rfl
+
+theorem handleStatusX_null : handleStatusX env kn allowed dflt .null = .raised (.py .type) := rfl
+theorem handleStatusX_bool (b : Bool) :
+    handleStatusX env kn allowed dflt (.bool b) = .raised (.py .type) := rfl
+theorem handleStatusX_int (n : Int) :
+    handleStatusX env kn allowed dflt (.int n) = .raised (.py .type) := rfl
+theorem handleStatusX_flt (f : FloatV) :
+    handleStatusX env kn allowed dflt (.flt f) = .raised (.py .type) := rfl
+
+/-! ### `evalReply` -/
+
+theorem evalReplyWith_json_raised (test : Raised → Bool) (v : JV) (r : Raised)
+    (h : handleStatusX env kn allowed dflt v = .raised r) :
+    evalReplyWith test env kn allowed dflt (.json v) = handleExceptionWith test dflt r := by
+  simp only [evalReplyWith, h]
+
+theorem evalReply_json_raised (v : JV) (r : Raised)
+    (h : handleStatusX env kn allowed dflt v = .raised r) (hr : isEOFError r = false) :
+    evalReply env kn allowed dflt (.json v) = .raised r := by
+  simp [evalReply, evalReplyWith_json_raised env kn allowed dflt _ v r h, handleExceptionWith, hr]
+
+theorem evalReplyWith_json_connect (test : Raised → Bool) (v : JV) (a : Nat) (b : Bool)
+    (h : handleStatusX env kn allowed dflt v = .connect a b) :
+    evalReplyWith test env kn allowed dflt (.json v) = .connect a b := by
+  simp only [evalReplyWith, h]
+
+theorem evalReplyWith_json_connectFloat (test : Raised → Bool) (v : JV) (n : Int)
+    (h : handleStatusX env kn allowed dflt v = .connectFloat n) :
+    evalReplyWith test env kn allowed dflt (.json v) = .connectFloat n := by
+  simp only [evalReplyWith, h]
+
+/-- Complete case analysis of the status connection, by what came back. -/
+theorem evalReply_cases (r : Reply) :
+    -- the fallback
+    (noVersion r = true ∧ evalReply env kn allowed dflt r = .connect dflt true) ∨
+    (noVersion r = false ∧
+      -- an error is delivered
+      ((∃ e, evalReply env kn allowed dflt r = .raised e ∧
+          ∀ sp sv b, e = .mismatch sp sv b → ∃ kvs x, r = .json (.obj kvs) ∧
+            lookup kvs "version" = some x ∧ MismatchOrigin env kn allowed x sp sv b) ∨
+       -- a float that equals an allowed version
+       (∃ n, evalReply env kn allowed dflt r = .connectFloat n ∧ ∃ kvs xk, r = .json (.obj kvs) ∧
+          lookup kvs "version" = some (.obj xk) ∧
+          lookup xk "protocol" = some (.flt (.integral n)) ∧ ∃ v ∈ allowed, (v : Int) = n) ∨
+       -- the server's version
+       (∃ kvs xk proto v, r = .json (.obj kvs) ∧ lookup kvs "version" = some (.obj xk) ∧
+          lookup xk "protocol" = some proto ∧ v ∈ allowed ∧ intKey proto = some (v : Int) ∧
+          (∀ m, proto ≠ .flt (.integral m)) ∧
+          evalReply env kn allowed dflt r = .connect v false))) := by
+  have noMis : ∀ {α : Prop} (e : Err) (sp sv : JV) (b : Bool), Raised.py e = .mismatch sp sv b → α :=
+    fun _ _ _ _ h => by cases h
+  cases r with
+  | closed => exact .inl ⟨rfl, rfl⟩
+  | badJson => exact .inr ⟨rfl, .inl ⟨.json, rfl, fun _ _ _ h => by cases h⟩⟩
+  | ioError => exact .inr ⟨rfl, .inl ⟨.os, rfl, fun _ _ _ h => by cases h⟩⟩
+  | json v =>
+    cases v with
+    | null =>
+      exact .inr ⟨rfl, .inl ⟨_, evalReply_json_raised env kn allowed dflt _ _
+        (handleStatusX_null ..) rfl, fun _ _ _ h => noMis _ _ _ _ h⟩⟩
+    | bool b =>
+      exact .inr ⟨rfl, .inl ⟨_, evalReply_json_raised env kn allowed dflt _ _
+        (handleStatusX_bool ..) rfl, fun _ _ _ h => noMis _ _ _ _ h⟩⟩
+    | int n =>
+      exact .inr ⟨rfl, .inl ⟨_, evalReply_json_raised env kn allowed dflt _ _
+        (handleStatusX_int ..) rfl, fun _ _ _ h => noMis _ _ _ _ h⟩⟩
+    | flt f =>
+      exact .inr ⟨rfl, .inl ⟨_, evalReply_json_raised env kn allowed dflt _ _
+        (handleStatusX_flt ..) rfl, fun _ _ _ h => noMis _ _ _ _ h⟩⟩
+    | str s =>
+      have hx := handleStatusX_str env kn allowed dflt s
+      cases ha : hasInfix "version".toList s.toList with
+      | false =>
+        simp only [ha, Bool.false_eq_true, if_false] at hx
+        exact .inl ⟨by simp only [noVersion, lacksKey, ha, Bool.not_false],
+          evalReplyWith_json_connect env kn allowed dflt _ _ _ _ hx⟩
+      | true =>
+        simp only [ha, if_true] at hx
+        exact .inr ⟨by simp only [noVersion, lacksKey, ha, Bool.not_true],
+          .inl ⟨_, evalReply_json_raised env kn allowed dflt _ _ hx rfl,
+            fun _ _ _ h => noMis _ _ _ _ h⟩⟩
+    | arr l =>
+      have hx := handleStatusX_arr env kn allowed dflt l
+      cases ha : l.any (JV.isStr "version") with
+      | false =>
+        simp only [ha, Bool.false_eq_true, if_false] at hx
+        exact .inl ⟨by simp only [noVersion, lacksKey, ha, Bool.not_false],
+          evalReplyWith_json_connect env kn allowed dflt _ _ _ _ hx⟩
+      | true =>
+        simp only [ha, if_true] at hx
+        exact .inr ⟨by simp only [noVersion, lacksKey, ha, Bool.not_true],
+          .inl ⟨_, evalReply_json_raised env kn allowed dflt _ _ hx rfl,
+            fun _ _ _ h => noMis _ _ _ _ h⟩⟩
+    | obj kvs =>
+      cases kvs with
+      | nil =>
+        exact .inr ⟨rfl, .inl ⟨_, evalReply_json_raised env kn allowed dflt _ _
+          (handleStatusX_obj_nil ..) rfl, fun _ _ _ h => by cases h⟩⟩
+      | cons e es =>
+        have hx := handleStatusX_obj_cons env kn allowed dflt e es
+        cases hl : lookup (e :: es) "version" with
+        | none =>
+          simp only [hl] at hx
+          exact .inl ⟨by simp only [noVersion, hl],
+            evalReplyWith_json_connect env kn allowed dflt _ _ _ _ hx⟩
+        | some x =>
+          simp only [hl] at hx
+          have hnv : noVersion (.json (.obj (e :: es))) = lacksKey "protocol" x := by
+            simp only [noVersion, hl]
+          rcases afterVersion_cases env kn allowed dflt x with ⟨h1, h2⟩ |
+            ⟨h1, ⟨r, h2, h3, h4⟩ | ⟨n, h2, xk, h3, h4, h5⟩ | ⟨xk, proto, v, h2, h3, h4, h5, h6, h7⟩⟩
+          · rw [h2] at hx
+            exact .inl ⟨by rw [hnv, h1], evalReplyWith_json_connect env kn allowed dflt _ _ _ _ hx⟩
+          · rw [h2] at hx
+            refine .inr ⟨by rw [hnv, h1], .inl ⟨r,
+              evalReply_json_raised env kn allowed dflt _ _ hx h3, fun sp sv b hr => ?_⟩⟩
+            exact ⟨_, x, rfl, hl, h4 sp sv b hr⟩
+          · rw [h2] at hx
+            subst h3
+            exact .inr ⟨by rw [hnv, h1], .inr (.inl ⟨n,
+              evalReplyWith_json_connectFloat env kn allowed dflt _ _ _ hx, _, xk, rfl, hl, h4, h5⟩)⟩
+          · rw [h7] at hx
+            subst h2
+            exact .inr ⟨by rw [hnv, h1], .inr (.inr ⟨_, xk, proto, v, rfl, hl, h3, h4, h5, h6,
+              evalReplyWith_json_connect env kn allowed dflt _ _ _ _ hx⟩)⟩
+
+end HS
+
+
+/-! ### `_version_mismatch`, the first model, texts -/
+
+theorem inIntList_iff (x : JV) (l : List Nat) :
+    inIntList x l = true ↔ ∃ p ∈ l, intKey x = some (p : Int) := by
+  unfold inIntList
+  cases hk : intKey x with
+  | none => simp
+  | some n =>
+    simp only [inZ_iff, Option.some.injEq]
+    constructor
+    · rintro ⟨v, hv, rfl⟩; exact ⟨v, hv, rfl⟩
+    · rintro ⟨v, hv, rfl⟩; exact ⟨v, hv, rfl⟩
+
+/-- What a raised `VersionMismatch` records: the name as given; the protocol as given, unless it
+was `None`, in which case it is looked up by NAME in `KNOWN_MINECRAFT_VERSIONS` (and stays `None`
+if the name is not a known string); and the wording is decided by membership of that protocol in
+`SUPPORTED_PROTOCOL_VERSIONS`. -/
+theorem versionMismatchX_spec (env : VEnv) (kn : List (String × Nat)) (sp0 sv0 sp sv : JV) (b : Bool)
+    (h : versionMismatchX env kn sp0 sv0 = .mismatch sp sv b) :
+    sv = sv0 ∧ b = inIntList sp env.supportedProtocols ∧
+    ((sp0 ≠ .null ∧ sp = sp0) ∨
+     (sp0 = .null ∧ ((sp = .null ∧ ∀ s p, sv0 = .str s → dictGet kn s ≠ some p) ∨
+        ∃ s p, sv0 = .str s ∧ dictGet kn s = some p ∧ sp = .int p))) := by
+  cases sp0 with
+  | null =>
+    cases sv0 with
+    | str s =>
+      cases hd : dictGet kn s with
+      | none =>
+        simp only [versionMismatchX, lookupKnown, hd, Raised.mismatch.injEq] at h
+        obtain ⟨rfl, rfl, rfl⟩ := h
+        refine ⟨rfl, rfl, .inr ⟨rfl, .inl ⟨rfl, ?_⟩⟩⟩
+        intro s' p hs'
+        cases hs'
+        rw [hd]
+        exact fun h => by cases h
+      | some p =>
+        simp only [versionMismatchX, lookupKnown, hd, fmtD, Raised.mismatch.injEq] at h
+        obtain ⟨rfl, rfl, rfl⟩ := h
+        exact ⟨rfl, rfl, .inr ⟨rfl, .inr ⟨s, p, rfl, hd, rfl⟩⟩⟩
+    | arr l => simp [versionMismatchX, lookupKnown] at h
+    | obj k => simp [versionMismatchX, lookupKnown] at h
+    | null =>
+      simp only [versionMismatchX, lookupKnown, Raised.mismatch.injEq] at h
+      obtain ⟨rfl, rfl, rfl⟩ := h
+      exact ⟨rfl, rfl, .inr ⟨rfl, .inl ⟨rfl, fun _ _ h => by cases h⟩⟩⟩
+    | bool t =>
+      simp only [versionMismatchX, lookupKnown, Raised.mismatch.injEq] at h
+      obtain ⟨rfl, rfl, rfl⟩ := h
+      exact ⟨rfl, rfl, .inr ⟨rfl, .inl ⟨rfl, fun _ _ h => by cases h⟩⟩⟩
+    | int n =>
+      simp only [versionMismatchX, lookupKnown, Raised.mismatch.injEq] at h
+      obtain ⟨rfl, rfl, rfl⟩ := h
+      exact ⟨rfl, rfl, .inr ⟨rfl, .inl ⟨rfl, fun _ _ h => by cases h⟩⟩⟩
+    | flt f =>
+      simp only [versionMismatchX, lookupKnown, Raised.mismatch.injEq] at h
+      obtain ⟨rfl, rfl, rfl⟩ := h
+      exact ⟨rfl, rfl, .inr ⟨rfl, .inl ⟨rfl, fun _ _ h => by cases h⟩⟩⟩
+  | bool t =>
+    simp only [versionMismatchX, fmtD, Raised.mismatch.injEq] at h
+    obtain ⟨rfl, rfl, rfl⟩ := h
+    exact ⟨rfl, rfl, .inl ⟨(fun h => by cases h), rfl⟩⟩
+  | int n =>
+    simp only [versionMismatchX, fmtD, Raised.mismatch.injEq] at h
+    obtain ⟨rfl, rfl, rfl⟩ := h
+    exact ⟨rfl, rfl, .inl ⟨(fun h => by cases h), rfl⟩⟩
+  | flt f =>
+    cases f with
+    | integral n =>
+      simp only [versionMismatchX, fmtD, Raised.mismatch.injEq] at h
+      obtain ⟨rfl, rfl, rfl⟩ := h
+      exact ⟨rfl, rfl, .inl ⟨(fun h => by cases h), rfl⟩⟩
+    | fractional =>
+      simp only [versionMismatchX, fmtD, Raised.mismatch.injEq] at h
+      obtain ⟨rfl, rfl, rfl⟩ := h
+      exact ⟨rfl, rfl, .inl ⟨(fun h => by cases h), rfl⟩⟩
+    | nan => simp [versionMismatchX, fmtD] at h
+    | inf => simp [versionMismatchX, fmtD] at h
+  | str s => simp [versionMismatchX, fmtD] at h
+  | arr l => simp [versionMismatchX, fmtD] at h
+  | obj k => simp [versionMismatchX, fmtD] at h
+
+/-- An integer protocol with a string-or-absent name always yields the mismatch of the first
+model (`Neg.versionMismatch`). -/
+theorem versionMismatchX_int (env : VEnv) (kn : List (String × Nat)) (n : Int) (name : Option String) :
+    versionMismatchX env kn (.int n) (nameJV name) =
+      .mismatch (.int n) (nameJV name) (inZ n env.supportedProtocols) := by
+  simp only [versionMismatchX, fmtD, inIntList, intKey]
+
+theorem mismatchText_int (n : Int) (name : Option String) (b : Bool) :
+    mismatchText (.int n) (nameJV name) b = some (mismatchMessage n name b) := by
+  cases name <;> rfl
+
+/-- The first model is this model restricted to the replies it can express. -/
+theorem evalReply_refines (env : VEnv) (kn : List (String × Nat)) (allowed : List Nat) (dflt : Nat)
+    (r : Reply) (a : StatusReply) (h : abstractReply r = some a) :
+    evalReply env kn allowed dflt r =
+      embedOutcome (isFallbackShape a) (evalStatus env allowed dflt a) := by
+  cases r with
+  | closed => simp only [abstractReply, Option.some.injEq] at h; subst h; rfl
+  | badJson => simp [abstractReply] at h
+  | ioError => simp [abstractReply] at h
+  | json v =>
+    cases v with
+    | obj kvs =>
+      cases kvs with
+      | nil => simp only [abstractReply, Option.some.injEq] at h; subst h; rfl
+      | cons e es =>
+        have hx := handleStatusX_obj_cons env kn allowed dflt e es
+        cases hl : lookup (e :: es) "version" with
+        | none =>
+          simp only [abstractReply, hl, Option.some.injEq] at h
+          subst h
+          simp only [hl] at hx
+          exact evalReplyWith_json_connect env kn allowed dflt _ _ _ _ hx
+        | some x =>
+          simp only [hl] at hx
+          cases x with
+          | obj xk =>
+            cases hp : lookup xk "protocol" with
+            | none =>
+              simp only [abstractReply, hl, hp, Option.some.injEq] at h
+              subst h
+              have : afterVersion env kn allowed dflt (.obj xk) = .connect dflt true := by
+                simp only [afterVersion, pyIn, hp, Option.isSome_none]
+              rw [this] at hx
+              exact evalReplyWith_json_connect env kn allowed dflt _ _ _ _ hx
+            | some proto =>
+              cases proto with
+              | int n =>
+                have key : ∀ name : Option String, (lookup xk "name").getD .null = nameJV name →
+                    evalReply env kn allowed dflt (.json (.obj (e :: es))) =
+                      embedOutcome false (evalStatus env allowed dflt (.proto n name)) := by
+                  intro name hname
+                  have hav : afterVersion env kn allowed dflt (.obj xk) =
+                      afterProto env kn allowed (.obj xk) (.int n) := by
+                    simp only [afterVersion, pyIn, hp, Option.isSome_some, pyGetItem]
+                  rw [hav] at hx
+                  cases hz : inZ n allowed with
+                  | true =>
+                    obtain ⟨w, hw, rfl⟩ := (inZ_iff _ _).1 hz
+                    rw [afterProto_of_member env kn allowed _ _ w hw rfl (fun _ h => by cases h)] at hx
+                    unfold evalReply
+                    rw [evalReplyWith_json_connect env kn allowed dflt _ _ _ _ hx]
+                    simp [evalStatus, hz, handleProtoVersion, embedOutcome]
+                  | false =>
+                    have hap : afterProto env kn allowed (.obj xk) (.int n) =
+                        .raised (.mismatch (.int n) (nameJV name) (inZ n env.supportedProtocols)) := by
+                      simp only [afterProto, inIntSet, hashable, if_true, intKey, hz, pyDictGet, hname,
+                        versionMismatchX_int]
+                    rw [hap] at hx
+                    rw [evalReply_json_raised env kn allowed dflt _ _ hx rfl]
+                    simp [evalStatus, hz, versionMismatch, embedOutcome]
+                cases hn : lookup xk "name" with
+                | none =>
+                  simp only [abstractReply, hl, hp, hn, Option.some.injEq] at h
+                  subst h
+                  exact key none (by rw [hn]; rfl)
+                | some nm =>
+                  cases nm with
+                  | null =>
+                    simp only [abstractReply, hl, hp, hn, Option.some.injEq] at h
+                    subst h
+                    exact key none (by rw [hn]; rfl)
+                  | str s =>
+                    simp only [abstractReply, hl, hp, hn, Option.some.injEq] at h
+                    subst h
+                    exact key (some s) (by rw [hn]; rfl)
+                  | bool _ => simp [abstractReply, hl, hp, hn] at h
+                  | int _ => simp [abstractReply, hl, hp, hn] at h
+                  | flt _ => simp [abstractReply, hl, hp, hn] at h
+                  | arr _ => simp [abstractReply, hl, hp, hn] at h
+                  | obj _ => simp [abstractReply, hl, hp, hn] at h
+              | null => simp [abstractReply, hl, hp] at h
+              | bool _ => simp [abstractReply, hl, hp] at h
+              | flt _ => simp [abstractReply, hl, hp] at h
+              | str _ => simp [abstractReply, hl, hp] at h
+              | arr _ => simp [abstractReply, hl, hp] at h
+              | obj _ => simp [abstractReply, hl, hp] at h
+          | null => simp [abstractReply, hl] at h
+          | bool _ => simp [abstractReply, hl] at h
+          | int _ => simp [abstractReply, hl] at h
+          | flt _ => simp [abstractReply, hl] at h
+          | str _ => simp [abstractReply, hl] at h
+          | arr _ => simp [abstractReply, hl] at h
+    | null => simp [abstractReply] at h
+    | bool _ => simp [abstractReply] at h
+    | int _ => simp [abstractReply] at h
+    | flt _ => simp [abstractReply] at h
+    | str _ => simp [abstractReply] at h
+    | arr _ => simp [abstractReply] at h
+
+/-- An allowed integer (or the boolean equal to it) reported in `version.protocol` is accepted. -/
+theorem evalReply_of_reported (env : VEnv) (kn : List (String × Nat)) (allowed : List Nat) (dflt : Nat)
+    (kvs xk : List (String × JV)) (proto : JV) (v : Nat)
+    (h1 : lookup kvs "version" = some (.obj xk)) (h2 : lookup xk "protocol" = some proto)
+    (hv : v ∈ allowed) (hk : intKey proto = some (v : Int)) (hne : ∀ m, proto ≠ .flt (.integral m)) :
+    evalReply env kn allowed dflt (.json (.obj kvs)) = .connect v false := by
+  cases kvs with
+  | nil => simp [lookup] at h1
+  | cons e es =>
+    have hx := handleStatusX_obj_cons env kn allowed dflt e es
+    simp only [h1] at hx
+    have hav : afterVersion env kn allowed dflt (.obj xk) =
+        afterProto env kn allowed (.obj xk) proto := by
+      simp only [afterVersion, pyIn, h2, Option.isSome_some, pyGetItem]
+    rw [hav, afterProto_of_member env kn allowed _ _ v hv hk hne] at hx
+    exact evalReplyWith_json_connect env kn allowed dflt _ _ _ _ hx
+
+/-- A float equal to an allowed version passes the membership test and is handed on AS A FLOAT. -/
+theorem evalReply_of_float (env : VEnv) (kn : List (String × Nat)) (allowed : List Nat) (dflt : Nat)
+    (kvs xk : List (String × JV)) (v : Nat)
+    (h1 : lookup kvs "version" = some (.obj xk))
+    (h2 : lookup xk "protocol" = some (.flt (.integral (v : Int)))) (hv : v ∈ allowed) :
+    evalReply env kn allowed dflt (.json (.obj kvs)) = .connectFloat (v : Int) := by
+  cases kvs with
+  | nil => simp [lookup] at h1
+  | cons e es =>
+    have hx := handleStatusX_obj_cons env kn allowed dflt e es
+    simp only [h1] at hx
+    have hz : inZ (v : Int) allowed = true := (inZ_iff _ _).2 ⟨v, hv, rfl⟩
+    have hav : afterVersion env kn allowed dflt (.obj xk) = .connectFloat (v : Int) := by
+      simp only [afterVersion, pyIn, h2, Option.isSome_some, pyGetItem, afterProto, inIntSet,
+        hashable, if_true, intKey, hz, handleProtoVersionX]
+    rw [hav] at hx
+    exact evalReplyWith_json_connectFloat env kn allowed dflt _ _ _ hx
 
 end PyCraft.NegS
